@@ -76,7 +76,27 @@ fn build_dir(job: &Value, scratch: &Path) -> std::io::Result<(PathBuf, PathBuf)>
             }
         }
     }
-    if has(job, "stale_results") {
+    if has(job, "stale_gains_table") {
+        // HULC rewrote the element rows of KyGananciasSolares.txt after the windows were renamed,
+        // but the solar-gains table at the end of the file still has the old names
+        if let Ok(b) = std::fs::read(proj.join("KyGananciasSolares.txt")) {
+            let t = crate::corpus::latin1_to_string(&b);
+            let mut out = String::new();
+            for l in t.split_inclusive('\n') {
+                if l.starts_with("Ventana;") {
+                    let mut f: Vec<String> = l.split(';').map(|x| x.to_string()).collect();
+                    if f.len() > 2 {
+                        f[1] = format!("{}_r2", f[1].trim_end());
+                        out.push_str(&f.join(";"));
+                        continue;
+                    }
+                }
+                out.push_str(l);
+            }
+            let _ = std::fs::write(proj.join("KyGananciasSolares.txt"), crate::corpus::string_to_latin1(&out));
+        }
+    }
+    if has(job, "stale_results") || has(job, "stale_gains_table") {
         // the project was edited after HULC wrote its result files: every window was renamed
         // in the .ctehexml, KyGananciasSolares.txt / NewBDL_O.tbl still carry the old names
         if let Ok(rd) = std::fs::read_dir(&proj) {
